@@ -213,6 +213,12 @@ fn run_op(st: &mut St, op: &Vec<J>) -> String {
             let r = if op[3].is_null() { make_fact(head) } else { make_rule(head, body) };
             let d = dump_rule(&r); st.set(op[1].usize(), V::Rule(r)); d
         },
+        "head" => { let t = st.rule(op[2].usize()).head.clone(); let d = dump(&t); st.set(op[1].usize(), V::Term(t)); d },
+        "body" => { let g = st.rule(op[2].usize()).body.clone(); let d = dump_goal(&g); st.set(op[1].usize(), V::Goal(g)); d },
+        "gterm" => { if let Goal::ComplexGoal(t) = st.goal(op[2].usize()) { let d = dump(&t); st.set(op[1].usize(), V::Term(t)); d }
+                     else { panic!("vreplay: gterm on a non-complex goal") } },
+        "arg" => { if let Unifiable::SComplex(ts) = st.term(op[2].usize()) { let t = ts[op[3].usize()].clone(); let d = dump(&t); st.set(op[1].usize(), V::Term(t)); d }
+                   else { panic!("vreplay: arg on a non-complex term") } },
         "kb" => {
             let mut kb = KnowledgeBase::new();
             let rules: Vec<Rule> = op[2].arr().iter().map(|r| st.rule(r.usize())).collect();
